@@ -99,6 +99,38 @@ Theorem C06_value_out_type_is_kind_payload : forall V vtype (o : op V) z t,
   port_kind vtype o Out z = Ret (ValueKind t) <-> hugr_port_type vtype o Out z = Ret (Some t).
 Proof. exact value_out_type_is_kind_payload. Qed.
 
+(* a reported type is the one the specification assigns, in BOTH directions, for EVERY answer function whose
+   reported types are payloads of the port's kind -- which ports are answered with a type at all is left open
+   (the code answers on every value port of the DataflowOp classes and on the value outputs of a Call; a variant
+   that also answers on the value inputs of a Call is equally admissible): at a value port the specified type,
+   at a static / control-flow / order port and where the node has no port never a type *)
+Theorem C06_reported_type_is_specified : forall V vtype (pt : op V -> dir -> Z -> result (option ty)),
+  kind_payload_reports V vtype pt ->
+  forall o d z t, pt o d z = Ret (Some t) ->
+    match spec_port_kind (ctype_of V vtype) o d z with
+    | Port (ValueKind t0) => t = t0
+    | Port _ | NoPort => False
+    | Unspecified => True
+    end.
+Proof. exact reported_type_is_specified. Qed.
+Theorem C06_port_type_admissible : forall V vtype, kind_payload_reports V vtype (hugr_port_type vtype).
+Proof. exact hugr_port_type_kind_payload. Qed.
+Theorem C06_port_type_call_inputs_admissible : forall V vtype,
+  kind_payload_reports V vtype (hugr_port_type_call_inputs V vtype).
+Proof. exact hugr_port_type_call_inputs_kind_payload. Qed.
+(* today's answer on a value INPUT port: the specified type or (value inputs of a Call) no type *)
+Theorem C06_in_port_type_none_or_specified : forall V vtype (o : op V) z t0,
+  spec_port_kind (ctype_of V vtype) o In z = Port (ValueKind t0) ->
+  hugr_port_type vtype o In z = Ret (Some t0) \/ hugr_port_type vtype o In z = Ret None.
+Proof. exact in_port_type_none_or_specified. Qed.
+(* non-vacuity: the two admissible answer functions differ on value input 1 of the example Call (None / qubit) *)
+Example C06_port_type_choice_example :
+  hugr_port_type vt0 ex_call In 1 = Ret None /\
+  hugr_port_type_call_inputs ty vt0 ex_call In 1 = Ret (Some TQubit) /\
+  hugr_port_type_call_inputs ty vt0 ex_call In 2 = Ret None /\
+  hugr_port_type vt0 ex_call Out 1 = Ret (Some TQubit).
+Proof. repeat split; reflexivity. Qed.
+
 (* non-vacuity: a row-polymorphic function instantiated at a two-element row *)
 Example C06_example :
   function_port_offset ex_call = Ret 2 /\ num_out ex_call = Ret 2 /\
@@ -188,6 +220,10 @@ Print Assumptions C06_port_kind_correct.
 Print Assumptions C06_no_invented_port.
 Print Assumptions C06_num_out_correct.
 Print Assumptions C06_value_out_type_is_kind_payload.
+Print Assumptions C06_reported_type_is_specified.
+Print Assumptions C06_port_type_admissible.
+Print Assumptions C06_port_type_call_inputs_admissible.
+Print Assumptions C06_in_port_type_none_or_specified.
 Print Assumptions C06_call_counts_orig_refuted.
 Print Assumptions C06_order_port_orig_refuted.
 Print Assumptions C06_store_holds_last_op.
